@@ -149,6 +149,37 @@ class C01(flow.Spec):
                 t += [row, ent["cl"], "1" if ent["col"] else "0", ent["col"][0] if ent["col"] else "0", ent["col"][1] if ent["col"] else "0"]
         return [" ".join(t)]
 
+    NODE = r"tbl=(\S*) clk=(\S*) heads=(\S*) need=(\d+) pneed=(\d+)(?: dup=(\S*))?"
+
+    def classify(self, case, impl_obs):
+        """resurrect-duplicate-seq: the nodes differ ONLY in rows for which some node stores two
+        records under one (site_id, db_version, seq) -- the relay then serves only the first"""
+        if not case.startswith("cluster") or impl_obs.startswith(("ERR", "PANIC", "CRASH")):
+            return None
+        steps = impl_obs.split(" # ")
+        nodes = []
+        for st in steps[1:]:
+            mm = re.match(self.NODE, st.strip())
+            if not mm:
+                return None
+            nodes.append(mm.groups())
+        dup = set()
+        for n in nodes:
+            dup |= {x for x in (n[5] or "").split(",") if x}
+        if not dup:
+            return None
+        def strip(n):
+            tbl = [c for c in n[0].split(",") if c and c.split("=")[0] not in dup]
+            clk = [c for c in n[1].split(",") if c and c.split("/")[0] not in dup]
+            return (tbl, clk, n[2], n[3], n[4])
+        full = [n[:5] for n in nodes]
+        if all(f == full[0] for f in full):
+            return None                      # converged: whatever failed is something else
+        st0 = strip(nodes[0])
+        if any(strip(n) != st0 for n in nodes) or st0[3] != "0" or st0[4] != "0":
+            return None
+        return "resurrect-duplicate-seq"
+
     def impl_verdict(self, case, impl_obs):
         if impl_obs.startswith(("ERR", "PANIC", "CRASH")):
             return False
@@ -160,10 +191,10 @@ class C01(flow.Spec):
             return False
         nodes = []
         for st in steps[1:]:
-            mm = re.match(r"tbl=(\S*) clk=(\S*) heads=(\S*) need=(\d+) pneed=(\d+)", st.strip())
+            mm = re.match(self.NODE, st.strip())
             if not mm:
                 return False
-            nodes.append(mm.groups())
+            nodes.append(mm.groups()[:5])
         # convergence: identical tables, identical per-cell versions, same heads, nothing needed
         if any(n[:3] != nodes[0][:3] for n in nodes):
             return False
